@@ -87,6 +87,33 @@ def _inflight(P, evs, ended, spawn_pos, pos, me, pred):
     return False
 
 
+def _busy(P, evs, ended, spawn_pos, start, end, me, pred):
+    """may some body other than `me` have been inside an op satisfying pred at any moment of the log window (start, end]?
+    — it completed such an op inside the window, or the next op it completes after the window is one, or it never
+    completes another op and one remains in its text.  Bodies spawned inside the window count from their spawn."""
+    for k, ops in P["bodies"].items():
+        if k == me:
+            continue
+        if k != 0 and (k not in spawn_pos or spawn_pos[k] > end):
+            continue                      # not spawned before the window closed
+        if k in ended and ended[k] <= start:
+            continue
+        mine = [ev for ev in evs if ev.k == k]
+        if any(start < ev.pos <= end and pred(ev.name, ev.args) for ev in mine):
+            return True
+        after = [ev for ev in mine if ev.pos > end]
+        if after:
+            if pred(after[0].name, after[0].args):
+                return True
+        else:
+            last = max([ev.pc for ev in mine], default=-1)
+            for pc in range(last + 1, len(ops)):
+                n, a, _ = _op(P, k, pc)
+                if pred(n, a):
+                    return True
+    return False
+
+
 def _blocked_op(P, evs, ended, spawn_pos, k):
     """the op body k was inside when the execution ended (None if it ended or never started)"""
     if k in ended or (k != 0 and k not in spawn_pos):
@@ -171,8 +198,8 @@ def _mpsc(P, objs, e, evs, offers, ended, spawn_pos, bad):
                     v = int(ev.res[2:])
                     if v > cap:
                         bad.append((f"channel {c}: capacity() = {v} exceeds the bound {cap}", "C19:mpsc-capacity"))
-                    quiet = not _inflight(P, evs, ended, spawn_pos, ev.start, ev.k,
-                                          lambda n, a: a[:1] == [c] and (n in SEND_OPS or n in RECV_OPS or
+                    quiet = not _busy(P, evs, ended, spawn_pos, ev.start, ev.pos, ev.k,
+                                      lambda n, a: a[:1] == [c] and (n in SEND_OPS or n in RECV_OPS or
                                                                           n in ("tclose", "tdrop_rx", "tdrop_tx")))
                     closed = closing_started is not None and closing_started < ev.pos
                     failed_send = any(x.name in SEND_OPS and x.res in ("err:closed", "pending-dropped") and x.pos < ev.pos
@@ -239,8 +266,7 @@ def _watch(P, objs, e, evs, ended, spawn_pos, bad):
                 before = [s for s in sends if s.pos <= ev.start]
                 ok_vals = {int(before[-1].args[1]) if before else init}
                 ok_vals |= {int(s.args[1]) for s in sends if s.pos > ev.start}
-                if _inflight(P, evs, ended, spawn_pos, ev.start, ev.k, is_send) or \
-                        _inflight(P, evs, ended, spawn_pos, ev.pos, ev.k, is_send):
+                if _busy(P, evs, ended, spawn_pos, ev.start, ev.pos, ev.k, is_send):
                     ok_vals |= text_vals
                 if v not in ok_vals:
                     bad.append((f"watch {w}: borrow returned {v}, not the latest value "
@@ -422,8 +448,7 @@ def _locks(P, objs, e, evs, offers, ended, spawn_pos, bad):
                 elif ev.name == "ts_avail" and ev.res.startswith("v:"):
                     v = int(ev.res[2:])
                     want = total - sum(sum(s) for s in held.values())
-                    if not _inflight(P, evs, ended, spawn_pos, ev.start, ev.k, is_sem) and \
-                            not _inflight(P, evs, ended, spawn_pos, ev.pos, ev.k, is_sem) and v != want:
+                    if not _busy(P, evs, ended, spawn_pos, ev.start, ev.pos, ev.k, is_sem) and v != want:
                         bad.append((f"semaphore {m}: available_permits() = {v} at a quiescent point, expected "
                                     f"{want} (permits are not conserved)", "C19:sem-conservation"))
         # FIFO fairness: a blocking acquire that started after another task was already seen blocked
